@@ -182,13 +182,18 @@ def run_scaled(rng, tier, case):
 
 
 def flatten(spec):
+    import pandas as pd
     sp = copy.deepcopy(spec)
     out = []
-    def rec(a):
+    def rec(a, ws=None, we=None):
         if a['type'] == 'StructuredAsset':
             for x in a['assets']:
-                rec(x)
+                rec(x, a.get('start', ws), a.get('end', we))
         else:
+            if ws is not None and a.get('start') is not None:
+                a['start'] = str(max(pd.Timestamp(a['start']), pd.Timestamp(ws)))
+            if we is not None and a.get('end') is not None:
+                a['end'] = str(min(pd.Timestamp(a['end']), pd.Timestamp(we)))
             out.append(a)
     for a in sp['assets']:
         rec(a)
@@ -217,6 +222,23 @@ def run_structured(rng, tier, case):
                  {'type': 'SimpleContract', 'name': 'outer_c', 'nodes': [ext], 'price': sorted(sp['prices'])[0], 'min_cap': -1. * f, 'max_cap': 1. * f, 'extra_costs': 0.1}]}
         sp['assets'][i] = outer
         case.feature('nested')
+    if rng.random() < 0.3:
+        # the structured asset gets a lifetime of its own: the wrapped assets (all given explicit start AND end) are active in the intersection,
+        # which is what the flat portfolio gets as windows
+        import pandas as pd
+        g = sp['grid']
+        tz = g.get('tz')
+        s0 = [a for a in sp['assets'] if a['type'] == 'StructuredAsset'][0]
+        ws, we, _k = gen.gen_window(rng, g, kinds=['inside', 'straddle_start', 'straddle_end'])
+        if ws is not None and we is not None and all(x['type'] != 'StructuredAsset' for x in s0['assets']):
+            far0 = str(pd.Timestamp(g['start']) - pd.Timedelta(days=3)); far1 = str(pd.Timestamp(g['end']) + pd.Timedelta(days=3))
+            if gen.local_ok(far0, tz) and gen.local_ok(far1, tz):
+                s0['start'] = ws; s0['end'] = we
+                for x in s0['assets']:
+                    i_s, i_e, _k2 = gen.gen_window(rng, g, kinds=['inside', 'straddle_start', 'straddle_end', 'none'])
+                    x['start'] = i_s if i_s is not None else far0
+                    x['end'] = i_e if i_e is not None else far1
+                case.feature('structured_with_window')
     flat = flatten(sp)
     case.feature('structured')
     case.key = env.spec_key(sp); case.sample = gen.abbreviate(sp); case.spec = sp
